@@ -1,0 +1,25 @@
+//go:build verif
+
+// Contracts for the deductive verifier in /verif (comment-only; compiled only with -tags verif).
+
+package ctfe
+
+//@ func parseGetEntriesRange
+//@ props C07 C08
+//@ arith int
+//@ site strconv.ParseInt#1 as ps
+//@ site strconv.ParseInt#2 as pe
+//@ requires maxRange >= 1
+//@ requires alignGetEntries != nil && alignedGetEntries != nil
+//@ note package initialisation (flag.Bool, setupMetrics under once.Do) establishes the two non-nil globals
+//@ let align = old(*alignGetEntries)
+//@ let span = wide(pe.i) - wide(ps.i) + 1
+//@ let unaligned = span > wide(maxRange) ? wide(ps.i) + wide(maxRange) - 1 : wide(pe.i)
+//@ ensures [accept-iff] result2 == nil <==> (ps.err == nil && pe.called && pe.err == nil && 0 <= ps.i && ps.i <= pe.i)
+//@ ensures [begins-at-start] result2 == nil ==> result0 == ps.i
+//@ ensures [non-empty-within-request] result2 == nil ==> result0 <= result1 && result1 <= pe.i
+//@ ensures [at-most-max] result2 == nil ==> wide(result1) - wide(result0) + 1 <= wide(maxRange)
+//@ ensures [unaligned-exact] result2 == nil && !align ==> wide(result1) == unaligned
+//@ ensures [align-only-shortens] result2 == nil && align ==> wide(result1) <= unaligned
+//@ ensures [align-boundary] result2 == nil && align && wide(result1) != unaligned ==> (wide(result1) + 1) % wide(maxRange) == 0
+//@ ensures [error-zero] result2 != nil ==> result0 == 0 && result1 == 0
